@@ -309,6 +309,16 @@ def arm_history(res, rng, bt, contracts):
         return
     calls = make_calls(rng, T, v, ref_encs)
     schema, obj = bt.schema, bt.obj
+    # half of the histories run on a value whose DEFAULT components equal to their default were never set (the way
+    # values are usually built): nothing a codec call does may make them appear
+    omit = rng.random() < 0.5
+    if omit:
+        try:
+            obj = B.value(T, v, route=B.OmitDefaults())
+            feats0 = feats0 | {'defaults-left-absent'}
+            res.see('histories-with-defaults-left-absent')
+        except Exception:
+            omit = False
     fp_s, fp_v = B.fingerprint(schema), B.fingerprint(obj)
     n_before = contracts.evaluations
     contracts.broken = []
@@ -323,7 +333,7 @@ def arm_history(res, rng, bt, contracts):
             res.see('call-raised:%s:%s' % (call[0], shared[1]))
         # isolation: the same call on fresh objects
         fresh_schema = B.schema(T)
-        fresh_obj = B.value(T, v)
+        fresh_obj = B.value(T, v, route=B.OmitDefaults()) if omit else B.value(T, v)
         alone = run_call(call, T, fresh_schema, fresh_obj)
         res.see('isolation-comparisons')
         if shared != alone:
